@@ -54,6 +54,23 @@ int main(int, char** argv) {
         if (!bad) printf("ok\n");
         return bad;
     }
+    if (r.str("unit").find("radiotap.parsed_fields_fit") == 0) {
+        // captured frames whose present word announces a field that does not fit into the options (every single field of the
+        // table, with 1 octet of field data): if the constructor accepts one, setting a field on it edits outside the buffer (ASan)
+        for (uint32_t bit = 0; bit < 22; ++bit) {
+            if (META[bit].size < 2) continue;
+            std::vector<uint8_t> m = {0, 0, 9, 0, 0, 0, 0, 0, 0xaa, 0xd4, 0x00, 0, 0, 1, 2, 3, 4, 5, 6};
+            for (int i = 0; i < 4; ++i) m[4 + i] = ((1u << bit) >> (8 * i)) & 0xff;
+            ExactBuf in(m);
+            try {
+                RadioTap rt(in.p, (uint32_t)m.size());
+                printf("accepted a header whose field %u (%u octets) has 1 octet of data; now setting fields on it\n", bit, META[bit].size);
+                rt.rate(2); rt.tsft(1); rt.xchannel(RadioTap::xchannel_type());
+                printf("DEFECT: setters ran on a header with a truncated field\n"); return 1;
+            } catch (const malformed_packet&) { }
+        }
+        printf("ok: truncated headers are rejected\n"); return 0;
+    }
     if (r.str("unit") == "radiotap.write_option") {
         uint32_t present = (uint32_t)r.num("W_present", 1u << 18) & 0x3fffff, nb2 = (uint32_t)r.num("W_new", 15) % 22;
         try { if (present & (1u << nb2)) { printf("field already present: overwrite path\n"); return 0; } return try_insert(present, nb2) ? 1 : (printf("ok\n"), 0); }
